@@ -82,8 +82,29 @@ def memo_pool():
     return pool
 
 
+def subs_extras():
+    """Simultaneous substitutions of SEVERAL names into sums / products whose operands mention only some of them."""
+    T, N, V = gen.T, gen.N, gen.V
+    ti, tj, tij, tjk, tk = T("i", lid=81), T("j", lid=82), T("ij", lid=83), T("jk", lid=84), T("k", lid=85)
+    x, w = V("x", "real"), V("w", "real")
+    bodies = [("B", "add", tij, tj), ("B", "mul", ti, tj), ("B", "add", ("B", "add", ti, tj), tij), ("B", "mul", ("B", "mul", tij, tj), tk),
+              ("R", "add", ("B", "mul", tij, tjk), (("k", 2),)), ("R", "logaddexp", ("B", "add", ti, tjk), (("k", 2),)),
+              ("B", "sub", ti, tj), ("U", "exp", (), ("B", "add", ti, tj)),
+              ("B", "add", ("B", "mul", tij, x), ("B", "mul", tj, w)), ("B", "mul", ("B", "add", ti, x), tj)]
+    maps = [(("i", N(1, 2)), ("j", N(2, 3))), (("j", N(0, 3)), ("i", N(0, 2))), (("i", V("f", 2)), ("j", N(1, 3))),
+            (("i", N(1, 2)), ("j", V("g", 3))), (("i", T("k", dtype=2, contents=[1, 0])), ("j", N(2, 3))),
+            (("x", N(2.5)), ("j", N(1, 3))), (("x", N(2.5)), ("w", N(0.5)), ("i", N(1, 2))), (("x", V("w", "real")), ("j", N(0, 3)), ("w", N(1.5)))]
+    out = []
+    for b in bodies:
+        for m in maps:
+            e = ("S", b, m)
+            if lang.well_typed(e) and all(k in lang.ty(b).inputs for k, _ in m):
+                out.append(e)
+    return out
+
+
 def cases(tier):
-    out = [["term", e] for e in gen.spines() + term_cases(tier)]
+    out = [["term", e] for e in gen.spines() + subs_extras() + term_cases(tier)]
     pool = memo_pool()
     for i, j in itertools.product(range(len(pool)), repeat=2):
         out.append(["memo", i, j])
